@@ -104,7 +104,7 @@ def convFloat (p eb p' eb' : Nat) (bits : Nat) : Nat :=
   match decodeFloat p eb bits with
   | .inf neg => signBit p' eb' neg + infBits p' eb'
   | .nan neg frac =>
-    let f := if p' ≤ p then frac >>> (p - p') else frac <<< (p' - p)
+    let f := (if p' ≤ p then frac >>> (p - p') else frac <<< (p' - p)) % 2 ^ (p' - 1)
     signBit p' eb' neg + infBits p' eb' + (f ||| 2 ^ (p' - 2))
   | .fin neg m e =>
     if exceedsMax p' eb' m e then signBit p' eb' neg + infBits p' eb'
